@@ -31,6 +31,8 @@ CLAIM += (' The same for the pieces of the RV64 SuperscalarHash routine, with th
 EXPLANATION += ' X86-DSITEM.'
 CLAIM += (' The hand-written x86-64 pieces pair register i with the i-th constant label, select the cache line as cache memory + (value & (CacheSize / 64 - 1)) * 64, XOR word i into register i and store the eight registers in order (X86-DSITEM; forms the rule does not read are exit 2).')
 
+EXPLANATION += ' A64-RT-CALLDEST.'
+
 
 def run(ctx, R):
     F = astq.Facts(ctx, 'K0')
